@@ -319,6 +319,15 @@ func stress(r *vk.Run, rng *rand.Rand, w, round int) {
 				}
 			}
 			s.issue(cur, tail, true, false)
+		case 7:
+			// refine a plain query by a term of another kind, or take the refinement away again: a result
+			// cached for the plain part must not answer the refined query (and vice versa)
+			if i := strings.Index(cur, " "); i > 0 && cur[0] != '!' {
+				cur = cur[:i] // (never down to a negated-only query: those are not ranked, the reference ranks)
+			} else if cur != "" && !strings.ContainsAny(cur, "!|^$") {
+				cur += []string{" !1", " !ab", " 'ab", " ^0", " 2$"}[rng.Intn(5)]
+			}
+			s.issue(cur, tail, true, false)
 		default:
 			s.issue(cur, tail, false, false)
 		}
